@@ -323,6 +323,48 @@ func init() {
 			}
 			panic(unsupported{"math.Pow on symbolic arguments"})
 		},
+		"math.Max": func(in *Interp, fn *ssa.Function, a []Value) Value {
+			x, y := a[0].(FloatV), a[1].(FloatV)
+			if x.kind == fConst && y.kind == fConst {
+				return FloatV{kind: fConst, c: math.Max(x.c, y.c)}
+			}
+			if in.branch(in.floatCmp(">=", x, y)) {
+				return x
+			}
+			return y
+		},
+		"math.Min": func(in *Interp, fn *ssa.Function, a []Value) Value {
+			x, y := a[0].(FloatV), a[1].(FloatV)
+			if x.kind == fConst && y.kind == fConst {
+				return FloatV{kind: fConst, c: math.Min(x.c, y.c)}
+			}
+			if in.branch(in.floatCmp("<=", x, y)) {
+				return x
+			}
+			return y
+		},
+		"math.Abs": func(in *Interp, fn *ssa.Function, a []Value) Value {
+			x := a[0].(FloatV)
+			switch x.kind {
+			case fConst:
+				return FloatV{kind: fConst, c: math.Abs(x.c)}
+			case fInt:
+				return FloatV{kind: fInt, a: in.ts.Ite(in.ts.SLT(x.a, in.ts.BV(0, 64)), in.ts.Neg(x.a), x.a)}
+			}
+			panic(unsupported{"math.Abs of float expression"})
+		},
+		"math.Trunc": func(in *Interp, fn *ssa.Function, a []Value) Value {
+			x := a[0].(FloatV)
+			switch x.kind {
+			case fConst:
+				return FloatV{kind: fConst, c: math.Trunc(x.c)}
+			case fInt:
+				return x
+			case fQuot:
+				return FloatV{kind: fInt, a: in.ts.SDiv(x.a, x.b)}
+			}
+			panic(unsupported{"math.Trunc of float expression"})
+		},
 		"math.Ceil":  func(in *Interp, fn *ssa.Function, a []Value) Value { return in.floatFloorCeil(a[0].(FloatV), true) },
 		"math.Floor": func(in *Interp, fn *ssa.Function, a []Value) Value { return in.floatFloorCeil(a[0].(FloatV), false) },
 	}
